@@ -68,6 +68,20 @@ def config(sc, external):
     if sc.get("redir"):            # the back-end's output redirected to a file (paths inside the configuration)
         import tempfile
         cfg["optimizer"].update({"output_dir": tempfile.mkdtemp(prefix="rvc20"), "stdout": "optimizer.out"})
+    if sc.get("padto"):            # the configuration message is exactly `padto` bytes long on the wire (a piece boundary of the
+        cfg["optimizer"]["options"] = {"pad": ""}       # 64 KiB pipe then falls inside the end-of-message marker)
+        cfg["variables"] = {"initial_values": [0.5, 1.5, -0.5] + [0.25] * 1500}
+        if external:
+            import json as _json
+            from ropt.config.enopt import EnOptConfig
+
+            def wire(c):
+                dump = EnOptConfig.model_validate(c).model_dump(round_trip=True)
+                return len(_json.dumps(dump, default=lambda o: o.tolist() if hasattr(o, "tolist") else str(o))) + len("\n--READY--\n")
+            cfg["optimizer"]["options"]["pad"] = "x" * max(0, int(sc["padto"]) - wire(cfg))
+            assert wire(cfg) == int(sc["padto"]), (wire(cfg), sc["padto"])
+        else:
+            cfg["optimizer"]["options"]["pad"] = "x" * 100
     if sc.get("integer"):          # integer variables: the back-end must be told about them in the child as well
         cfg["variables"]["types"] = [2, 1, 2]
     if sc.get("rich"):             # every optional section is set to something that changes the run when it gets lost
@@ -194,6 +208,7 @@ def extra_scenarios(tier, seed):
                  {"method": "differential_evolution", "maxfun": 8, "integer": True}, {"method": "slsqp", "maxfun": 6, "rich": True},
                  {"method": "nelder-mead", "maxfun": 3, "slow": 1.3}, {"method": "nelder-mead", "maxfun": 2, "nvars": 3000},
                  {"method": "slsqp", "maxfun": 4, "redir": True}]
+        pairs += [{"method": "nelder-mead", "maxfun": 2, "padto": 65536 + k} for k in (3, 8)]
         kills = (-1, 1, 3, 4)
     else:
         kills, methods = (-1, 1, 2, 3, 4, 5, 6), ("slsqp", "cobyla", "differential_evolution")
@@ -208,6 +223,7 @@ def extra_scenarios(tier, seed):
                  {"method": "nelder-mead", "maxfun": 4, "slow": 1.3}, {"method": "slsqp", "maxfun": 3, "slow": 2.2},
                  {"method": "nelder-mead", "maxfun": 2, "nvars": 3000}, {"method": "nelder-mead", "maxfun": 2, "nvars": 20000},
                  {"method": "slsqp", "maxfun": 4, "redir": True}, {"method": "cobyla", "maxfun": 4, "redir": True, "mask": True}]
+        pairs += [{"method": "nelder-mead", "maxfun": 2, "padto": 65536 * m + k} for m in (1, 2) for k in range(0, 13)]
     for m in methods:
         for k in kills:
             out.append({"kind": "fault", "fault": "kill", "after": k, "method": m, "maxfun": 12})
